@@ -215,7 +215,7 @@ def _splittable(url):
 
 
 class Actor(object):
-    def __init__(self, world, cfg, router, calls=None, shared_from=None, store_from=None, defer=False, class_from=None):
+    def __init__(self, world, cfg, router, calls=None, shared_from=None, store_from=None, defer=False, class_from=None, fc_from=None):
         from jsonschema import RefResolver
         self.world = world
         self.cfg = cfg
@@ -239,8 +239,12 @@ class Actor(object):
             self.cls = shared_from.cls
         else:
             self.cls = build_class(draft, world.get("custom"), self.collab)
-        if shared_from is not None and cfg.get("share_format_checker"):
-            self.fc = shared_from.fc           # one FormatChecker object may serve several validators
+        if fc_from is not None:
+            self.fc = fc_from.fc               # one FormatChecker object may serve several validators
+        elif shared_from is not None and cfg.get("share_format_checker"):
+            self.fc = shared_from.fc
+        elif class_from is not None and cfg.get("share_format_checker_with_class_donor"):
+            self.fc = class_from.fc
         else:
             self.fc = build_format_checker(world.get("formats"), self.collab)
         if shared_from is None:
